@@ -36,6 +36,8 @@ C07(ev) == /\ ev.encOK /\ ev.j.t # "invalid"
 \* C08: valid documents decode and re-encode equivalently; single faults are rejected naming the property
 C08(ev) == /\ ev.panic = ""
            /\ IF ev.mut = "none" THEN ev.decOK /\ ev.encOK /\ ev.re.t # "invalid" /\ JEquiv(S(ev.type), ev.doc, ev.re)
+              \* ("maybe": a spelling a decoder may or may not take - an integer in float notation -; taken, it is that value)
+              ELSE IF ev.mut = "maybe" THEN ~ev.decOK \/ (ev.encOK /\ ev.re.t # "invalid" /\ JEquiv(S(ev.type), ev.doc, ev.re))
               \* (a missing or wrongly typed discriminator is refused by its role - "unknown discriminator",
               \* "cannot unmarshal discriminator" -: the error need not spell the property's name)
               ELSE ~ev.decOK /\ (ev.names \/ ev.mut \in {"drop-disc", "swap-disc"})
@@ -52,7 +54,7 @@ Dec == /\ Is("Dec") /\ Known(Ev.type)
 \*   Body {case, type, mut, prop, reached, ok, names, panic}
 BodyEv == /\ Is("Body") /\ Known(Ev.type)
           /\ Ev.panic = "" /\ Ev.reached
-          /\ IF Ev.mut = "none" THEN Ev.ok ELSE (~Ev.ok /\ (Ev.names \/ Ev.mut \in {"drop-disc", "swap-disc"}))
+          /\ IF Ev.mut = "none" THEN Ev.ok ELSE IF Ev.mut = "maybe" THEN TRUE ELSE (~Ev.ok /\ (Ev.names \/ Ev.mut \in {"drop-disc", "swap-disc"}))
           /\ stats' = [stats EXCEPT !.accepted = @ + 1, !.nontrivial = @ + 1]
           /\ l' = l + 1 /\ UNCHANGED schemas
 Step == SchemaEv \/ Enc \/ Dec \/ BodyEv
